@@ -465,12 +465,13 @@ for (st, en) in [(0, 31), (29, 31), (30, 31), (15, 31)]:
 PROP_META["C18"] = {
     "technique": "Kani/CBMC BMC of hash_stream_common with a nondeterministic Read implementation (arbitrary "
                  "short reads, arbitrary error kind at an arbitrary read)",
-    "assumptions": ["Read contract: Ok(n) with n <= buf.len(); <= 3 reads of <= 2 bytes each",
+    "assumptions": ["Read contract: Ok(n) with 1 <= n <= buf.len() while data remains, Ok(0) only at the end; stream <= 6 bytes",
                     "hash_file's File::open / metadata (operating-system I/O) are outside this technique"],
 }
 for nm in ("c18_stream_no_hint", "c18_stream_with_hint"):
     K(nm, "C18", M_STD, cfg="release", shape="BMC", cap=(900, 2400), cost=600, mem=14,
-      bound="<= 3 reads x <= 2 bytes per read, arbitrary error kind (4 kinds) at an arbitrary read",
+      bound="a fixed symbolic stream of <= 6 bytes delivered in arbitrary chunks of 1..=2 bytes (<= 7 reads), failing with an "
+            "arbitrary error kind (4 kinds) at an arbitrary read or never",
       outside="reads longer than 2 bytes (32 KiB buffer boundary); hash_file's OS half",
       enc=["generate_easy_std::hash_stream_common", "Generator::update", "Generator::finalize"])
 PROP_META["C19"] = {
@@ -631,12 +632,18 @@ for nm in ("c16_triple_short_raw_m8", "c16_triple_long_norm_m8"):
     K(nm, "C16", M_HASH, cfg="release", cap=(900, 2400), cost=400, mem=12, unwindset=[("@memcmp.0", 70)], shape="BMC",
       bound="triples of valid objects, block hashes <= 8 symbols (transitivity)", enc=["Ord::cmp", "PartialEq::eq"],
       assumptions=["objects valid (spec_valid)"])
-for nm in ("c16_dual_pair_short_m5", "c16_dual_pair_short_m8", "c16_dual_pair_long_m8", "c16_dual_hash_short_m8", "c16_dual_triple_short_m6"):
-    K(nm, "C16", M_DUAL, cfg="release", tiers=("quick",) if "m5" in nm else ("thorough",),
-      cap=(900, 3000), cost=900, mem=14, unwindset=dual_rules(n_in=9, n_rle=17) + [("@memcmp.0", 70)], shape="BMC",
-      bound="dual hashes built from valid raw hashes with block hashes <= 8 (6) symbols",
+for (nm, tiers, cap, cost) in [("c16_dual_pair_short_m8", ("quick", "thorough"), (900, 2400), 300),
+                               ("c16_dual_pair_long_m8", ("thorough",), (0, 2400), 400),
+                               ("c16_dual_pair_long_m4_40", ("thorough",), (0, 3000), 900),
+                               ("c16_dual_equal_iff_raw_equal_m5", ("thorough",), (0, 3600), 1500),
+                               ("c16_dual_hash_short_m8", ("thorough",), (0, 3600), 1500),
+                               ("c16_dual_triple_short_m6", ("thorough",), (0, 3600), 1500)]:
+    K(nm, "C16", M_DUAL, cfg="release", tiers=tiers, cap=cap, cost=cost, mem=14,
+      unwindset=dual_rules(n_in=9, n_rle=17) + [("@memcmp.0", 70)], shape="BMC",
+      bound="dual hashes: arbitrary reverse-normalization bytes, valid normalized parts with block hashes <= 8 (40) symbols"
+      if "pair" in nm else "dual hashes built from valid raw hashes with block hashes <= 8 (6, 5) symbols",
       enc=["FuzzyHashDualData: PartialEq, Ord, PartialOrd, Hash", "from_raw_form"],
-      assumptions=["raw objects valid (spec_valid)"])
+      assumptions=["normalized parts valid (spec_valid)"])
 
 PROP_META["C15"] = {
     "technique": "Kani/CBMC BMC per edge of the conversion graph on a symbolic valid source and a symbolic dirty "
@@ -1060,3 +1067,11 @@ for nm in ("c16_pair_long_raw_m4_40", "c16_pair_long_norm_m4_40"):
     K(nm, "C16", M_HASH, cfg="release", cap=(900, 2400), cost=300, mem=12, unwindset=[("@memcmp.0", 70)], shape="BMC",
       bound="pairs of valid long hashes, block hash 1 <= 4, block hash 2 <= 40 symbols (differences beyond index 32)",
       enc=["PartialEq::eq", "Ord::cmp", "Hash::hash"], assumptions=["both objects valid (spec_valid)"])
+
+K("c19_roll_slice_forms_l9", "C19", M_ROLL, cfg="release", shape="BMC", cap=(600, 1500), cost=120,
+  bound="ARBITRARY internal state, slices of <= 9 bytes (longer than the window): update / update_by_iter / += forms == byte-wise",
+  enc=["RollingHash::update", "update_by_iter", "update_by_byte", "AddAssign<&[u8]>", "AddAssign<&[u8; N]>"])
+K("c08_ed_long_a_short_b_q", "C08", M_PA, fn="c08_ed_long_a_short_b", cfg="release", tiers=("quick",), unwindset=pa_rules(n_ed=4),
+  cap=(900, 0), cost=200, mem=10, shape="BMC",
+  bound="|a| in {63,64} over 4 symbols, |b| <= 3 (top bits of the 64-bit vector, full-length strings)",
+  enc=["BlockHashPositionArrayImplInternal::edit_distance_internal"], assumptions=[ASSUME_SYM, ASSUME_MASKS])
